@@ -173,10 +173,15 @@ def check_config(cfg, w, rep):
     sums = set()
     for p in R.bucket_readers:
         lf = prog.fns[p]
-        for b, blk, t in prog.call_sites(lf):
+        # the reader and the private helpers it validates lines with (one level; the hash roles themselves excluded)
+        sites = list(prog.call_sites(lf))
+        for _b, _blk, _t, g in prog.local_calls(lf):
+            if not g.outer.reachable and g.path not in R.hash_fns and g.path not in R.bucket_readers:
+                sites += list(prog.call_sites(g))
+        for b, blk, t in sites:
             if t.callee is not None and t.callee.path == "core::str::<impl str>::split" and len(t.args) > 1:
                 seps.add(t.args[1].const_val if t.args[1].is_const else "?")
-            if t.callee is not None and t.callee.path == "std::cmp::PartialEq::eq":
+            if t.callee is not None and t.callee.path in ("std::cmp::PartialEq::eq", "std::cmp::PartialEq::ne"):
                 a = w.sym.of_operand(b, t.args[0])
                 c = w.sym.of_operand(b, t.args[1])
                 for x, y in ((a, c), (c, a)):
